@@ -30,6 +30,9 @@ def run(rec, hub, tier, seed, shard, nshards, budget):
         i = k * nshards + shard
         rec.set_case(driver="c16.case", seed=seed, tier=tier, shard=shard, nshards=nshards, idx=i)
         dsm.c16_case(rec, hub, case_nprng(seed, "c16.case", 0, i), tier, i)
+        if k % 11 == 6:
+            rec.set_case(driver="c16.lmorder", seed=seed, tier=tier, shard=shard, nshards=nshards, idx=i)
+            dsm.lm_time_not_first_case(rec, hub, case_nprng(seed, "c16.lmorder", 0, i), tier)
         if k % 9 == 4:
             rec.set_case(driver="c16.degenerate", seed=seed, tier=tier, shard=shard, nshards=nshards, idx=i)
             dsm.one_label_degenerate_case(rec, hub, case_nprng(seed, "c16.degenerate", 0, i), tier)
@@ -43,6 +46,9 @@ def replay(rec, hub, case):
 
     bystand.register(hub, "C16")
     rec.set_case(**case)
+    if case["driver"] == "c16.lmorder":
+        dsm.lm_time_not_first_case(rec, hub, case_nprng(case["seed"], "c16.lmorder", 0, case["idx"]), case.get("tier", "quick"))
+        return
     if case["driver"] == "c16.degenerate":
         dsm.one_label_degenerate_case(rec, hub, case_nprng(case["seed"], "c16.degenerate", 0, case["idx"]), case.get("tier", "quick"))
         return
